@@ -20,6 +20,7 @@ type Node struct {
 	Signs string // unary sign run written in front of the operand
 	Wraps int    // redundant parenthesis pairs around the operand (inside the sign run)
 	Name  string // when non-empty the leaf is written as this name (EQU or predefined constant)
+	Lead  int    // leading zeros written in front of a literal (007)
 }
 
 func prec(op byte) int {
@@ -66,7 +67,7 @@ func (n *Node) tokens(out *[]string, minPrec int, rightOperand bool) {
 		if n.Name != "" {
 			*out = append(*out, n.Name)
 		} else {
-			*out = append(*out, fmt.Sprintf("%d", n.Val))
+			*out = append(*out, strings.Repeat("0", n.Lead)+fmt.Sprintf("%d", n.Val))
 		}
 	} else {
 		inner := prec(n.Op)
